@@ -21,9 +21,9 @@ func init() {
 			depth, budget = 6, 20*time.Minute
 		}
 		return CheckSpec{Level: "model_checking", Rule: searchRule, Assumptions: commonAssumptions, Budget: budget,
-			Units: []Unit{Search{Sc: Keys{Variant: "base"}, Depth: depth}},
+			Units: []Unit{Search{Sc: Keys{Variant: "base"}, Depth: depth}, Search{Sc: Keys{Variant: "removal"}, Depth: depth + 1}},
 			MustSee: []string{"assign:mustReject=true,accepted=false", "assign:mustReject=false,accepted=true", "create:mustReject=true,accepted=false",
-				"create:mustReject=false,accepted=true", "replaced-on-launched", "replaced-before-launch", "checked-replaced-key-resolution"}}
+				"create:mustReject=false,accepted=true", "replaced-on-launched", "replaced-before-launch", "checked-replaced-key-resolution", "validator-removed", "replaced-key-of-removed-validator-still-reserved"}}
 	}
 	register("C05", spec)
 	register("C06", spec)
